@@ -357,6 +357,260 @@ def ns_names(ctx, xh):
     ctx.coverage["traces_validated_against_impl"] += len(lines)
 
 
+def dtd_events(ctx, xh):
+    """content of DTD-level events: comments and processing instructions inside the internal and the external subset
+    as delivered to the SAX DocTypeHandler (SAXParser), to SAX2 LexicalHandler::comment, and as reproduced in
+    DOMDocumentType::getInternalSubset(): the text must be the one between the delimiters - with single dashes, a '-'
+    followed by a non-dash, leading/trailing blanks, line ends (normalised), non-ASCII characters and texts long enough
+    to span character-buffer refills.  The same comment text placed in the document prolog is scanned by the C02 model
+    (Model02.scan_comment); the expected DTD text is the model's text for that comment."""
+    import re
+    rng = ctx.rng
+    xm = os.path.join(V.BIN, "xm_C02")
+    H = lambda t: "".join("%04X" % ord(c) for c in t)
+
+    def body(rng, big=False):
+        n = rng.choice([0, 1, 3, 8, 20, 60]) if not big else rng.choice([17000, 33000])
+        out = []
+        pool = "ab z-- - -x\n\t!<>&%;'\"]é中"
+        for _ in range(n):
+            c = rng.choice(pool)
+            if c == "-" and out and out[-1] == "-":
+                c = rng.choice("ax ")
+            out.append(c)
+        if out and out[-1] == "-":
+            out.append(" ")
+        t = "".join(out)
+        if big:
+            t = t.replace("&", "a").replace("%", "b")
+        return t
+
+    def pi_data(rng):
+        t = body(rng).replace("?>", "? >").lstrip(" \t\n")
+        return t
+    docs = []
+    for k in range(40 if ctx.tier == "quick" else 1500):
+        items_int, items_ext = [], []
+        for items in (items_int, items_ext):
+            for _ in range(rng.choice([0, 1, 2, 4])):
+                r = rng.random()
+                if r < 0.55:
+                    items.append(("c", body(rng, big=(rng.random() < 0.04))))
+                elif r < 0.8:
+                    items.append(("p", "p" + rng.choice("abc"), pi_data(rng)))
+                else:
+                    items.append(("d", "<!ENTITY e%d 'v'>" % rng.randrange(1000)))
+        use_ext = bool(items_ext) and rng.random() < 0.7
+
+        def ren(items):
+            o = ""
+            for it in items:
+                if it[0] == "c":
+                    o += "<!--" + it[1] + "-->"
+                elif it[0] == "p":
+                    o += "<?" + it[1] + (" " + it[2] if it[2] else "") + "?>"
+                else:
+                    o += it[1]
+                o += rng.choice(["", " ", "\n"])
+            return o
+        doc = "<!DOCTYPE a%s [%s]><a/>" % (" SYSTEM 'x.dtd'" if use_ext else "", ren(items_int))
+        res = {"x.dtd": ren(items_ext)} if use_ext else {}
+        docs.append((doc, res, items_int, items_ext if use_ext else []))
+    # model text of every comment body (placed in the prolog of a DTD-less document)
+    bodies = sorted({it[1] for d in docs for it in d[2] + d[3] if it[0] == "c"})
+    mo = C02.run_lines(xm, ["scan 0 " + (H("<!--" + b + "-->" + "<a/>")) for b in bodies], jobs=4)
+    model_text = {}
+    for b, o in zip(bodies, mo):
+        ev = o.rsplit(" | ", 1)[0].split(" ")
+        model_text[b] = ev[0][1:] if ev and ev[0].startswith("M") else None
+    lines, meta = [], []
+    for k, (doc, res, ii, ie) in enumerate(docs):
+        rt = "".join(" %s=%s" % (n, v.encode("utf-8").hex().upper()) for n, v in res.items())
+        for a in C02.APIS:
+            for sc in ("IG", "DG"):
+                lines.append("parse %s %s %d %s t%s" % (a, sc, (k + len(a)) % 2, doc.encode("utf-8").hex().upper(), rt))
+                meta.append((k, a, sc))
+    out = C02.run_lines(xh, lines, jobs=8)
+    nbad = 0
+    norm = lambda t: t.replace("\r\n", "\n").replace("\r", "\n")
+    for (k, a, sc), req, o in zip(meta, lines, out):
+        ctx.count()
+        ctx.distinct(("dtdev", k, a, sc))
+        doc, res, ii, ie = docs[k]
+        ev, errs, fh = C02.parse_impl(o)
+        toks = ev.split(" ")
+        problem = None
+        if errs:
+            problem = "errors: %s" % errs[:2]
+        elif a in ("sax", "sax2"):
+            want = []
+            for it in ii + ie:
+                if it[0] == "c":
+                    want.append("m" + (model_text[it[1]] or H(norm(it[1]))))
+                elif it[0] == "p":
+                    want.append("p" + H(it[1]) + "," + H(norm(it[2])))
+            got = [t for t in toks if t[:1] in ("m", "p")]
+            if got != want:
+                j = next((i for i in range(min(len(got), len(want))) if got[i] != want[i]), min(len(got), len(want)))
+                problem = ("DTD comment / PI events differ from the text between the delimiters: event %d is %s, expected %s"
+                           % (j, (got[j] if j < len(got) else "<missing>")[:120], (want[j] if j < len(want) else "<none>")[:120]))
+        else:
+            it_tok = [t for t in toks if t.startswith("I")]
+            sub = "".join(chr(int(it_tok[0][1:][i:i + 4], 16)) for i in range(0, len(it_tok[0]) - 1, 4)) if it_tok else ""
+            got = re.findall(r"<!-- (.*?) -->", sub, flags=re.S)
+            want = [norm(it[1]) for it in ii if it[0] == "c"]
+            if got != want:
+                problem = "comments reproduced in DOMDocumentType::getInternalSubset() differ: %r, expected %r" % (
+                    [g[:60] for g in got][:3], [w[:60] for w in want][:3])
+        if problem:
+            nbad += 1
+            if nbad <= 4:
+                ctx.violation("dtd-events", {"what": "%s/%s: %s" % (a, sc, problem), "request": req, "tag": "dtd-events",
+                                             "impl": [ev[:400], errs, fh], "expect": {"fatal": False, "events": None},
+                                             "document": doc[:400], "resources": {n: v[:300] for n, v in res.items()}})
+    ctx.coverage["dtd_event_documents"] = len(docs)
+    ctx.coverage["traces_validated_against_impl"] += len(lines)
+
+
+def linecol(ctx, xh, xm3):
+    """Locator line/column numbers as part of the event stream: line ends (LF, CR, CR LF; NEL, LSEP, CR NEL in XML 1.1
+    documents) as the first white space after a PI target, inside multi-line DTD declarations (ELEMENT, ATTLIST, ENTITY),
+    between attributes, inside attribute values, comments, CDATA and text.  Oracle (extracted Model03.line_after /
+    col_after): at a start tag, line = 1 + number of normalised line ends in the text before the end of the tag,
+    column = 1 + characters since the last one; SAXParser and SAX2XMLReader, all scanners."""
+    rng = ctx.rng
+    H = lambda t: "".join("%04X" % ord(c) for c in t) or "-"
+    docs = []
+    for k in range(60 if ctx.tier == "quick" else 3000):
+        v11 = rng.random() < 0.3
+        eols = ["\n", "\r", "\r\n"] + (["\x85", "\u2028", "\r\x85"] if v11 else [])
+        style = rng.random()
+        one = rng.choice(eols)
+
+        def E():
+            return one if style < 0.4 else rng.choice(eols)
+
+        def W():
+            return rng.choice(["", " ", "\t"]) + E() + rng.choice(["", " ", "  "])
+        out = []
+        marks = []          # offsets just after each start tag
+        lsep_ws = [False]
+
+        def add(t):
+            out.append(t)
+        if v11:
+            add('<?xml version="1.1"?>' + rng.choice(["", E()]))
+        elif rng.random() < 0.3:
+            add('<?xml version="1.0"?>' + E())
+        dtd = rng.random() < 0.5
+        if rng.random() < 0.5:
+            add("<?pt" + E() + "data" + E() + "?>" + E())
+        if dtd:
+            add("<!DOCTYPE r" + rng.choice([" ", W()]) + "[" + E())
+            for _ in range(rng.choice([1, 2, 4])):
+                r = rng.random()
+                if r < 0.25:
+                    add("<!ELEMENT r" + W() + "ANY" + rng.choice(["", W()]) + ">" + E())
+                elif r < 0.5:
+                    add("<!ATTLIST r" + W() + "a%d CDATA" % rng.randrange(99) + W() + "#IMPLIED" + W() + "b%d CDATA" % rng.randrange(99) + W() + "'d" + E() + "v'>" + E())
+                elif r < 0.7:
+                    add("<!ENTITY e%d" % rng.randrange(999) + W() + "'v" + E() + "w'" + rng.choice(["", W()]) + ">" + E())
+                elif r < 0.85:
+                    add("<!--c" + E() + "d-->" + E())
+                else:
+                    add("<?dp" + E() + "x?>" + E())
+            add("]" + rng.choice(["", W()]) + ">" + E())
+        depth = 0
+        names = []
+
+        def start(nm, empty):
+            t = "<" + nm
+            for j in range(rng.choice([0, 1, 2])):
+                t += W() + "x%d=" % j + rng.choice(["'", '"']) + "v" + rng.choice(["", E(), " " + E() + "w"]) + rng.choice(["'", '"'])
+            # quotes must match
+            return t
+        def tag(nm, empty):
+            t = "<" + nm
+            for j in range(rng.choice([0, 1, 2])):
+                q = rng.choice(["'", '"'])
+                t += W() + "x%d=" % j + q + "v" + rng.choice(["", E(), " " + E() + "w"]) + q
+            t += rng.choice(["", W()]) + ("/>" if empty else ">")
+            return t
+        add(tag("r", False))
+        marks.append(sum(len(x) for x in out))
+        names.append("r")
+        for _ in range(rng.choice([2, 4, 8])):
+            r = rng.random()
+            if r < 0.3:
+                add("t" + E() + "u")
+            elif r < 0.45:
+                add("<!--k" + E() + "-->")
+            elif r < 0.55:
+                add("<![CDATA[c" + E() + "]]>")
+            elif r < 0.7:
+                add("<?cp" + E() + "d?>")
+            elif r < 0.85 and len(names) < 5:
+                n = "e%d" % len(marks)
+                add(tag(n, False))
+                marks.append(sum(len(x) for x in out))
+                names.append(n)
+            elif r < 0.95:
+                add(tag("m%d" % len(marks), True))
+                marks.append(sum(len(x) for x in out))
+            elif len(names) > 1:
+                add("</" + names.pop() + rng.choice(["", W()]) + ">")
+        while names:
+            add("</" + names.pop() + ">")
+        text = "".join(out)
+        docs.append((text, marks, v11, dtd))
+    req = []
+    for text, marks, v11, dtd in docs:
+        for m in marks:
+            req.append("linecol %s %s" % ("11" if v11 else "10", H(text[:m])))
+    mo = C02.run_lines(xm3, req, jobs=4)
+    exp = []
+    i = 0
+    for text, marks, v11, dtd in docs:
+        exp.append([tuple(mo[i + j].split()) for j in range(len(marks))])
+        i += len(marks)
+    lines, meta = [], []
+    for k, (text, marks, v11, dtd) in enumerate(docs):
+        for sc in (C02.SCANNERS if not dtd else ["IG", "DG"]):
+            for a in ("sax", "sax2"):
+                lines.append("parse %s %s %d %s l" % (a, sc, (k + len(a)) % 2, text.encode("utf-8").hex().upper()))
+                meta.append((k, a, sc))
+    out = C02.run_lines(xh, lines, jobs=8)
+    nbad = 0
+    f46 = 0
+    for (k, a, sc), req_, o in zip(meta, lines, out):
+        ctx.count()
+        ctx.distinct(("linecol", k, a, sc))
+        text, marks, v11, dtd = docs[k]
+        ev, errs, fh = C02.parse_impl(o)
+        got = [tuple(t.split("@")[1].split(":")) for t in ev.split(" ") if t.startswith("S") and "@" in t]
+        want = exp[k]
+        if errs or got != want:
+            if not errs and v11 and "\u2028" in text and len(got) == len(want) and ctx.find_known("F46") and \
+                    all(int(g[0]) <= int(w[0]) for g, w in zip(got, want)):
+                f46 += 1       # known finding F46: LSEP skipped as a plain blank is not counted as a line end
+                continue
+            nbad += 1
+            if nbad <= 4:
+                j = next((i for i in range(min(len(got), len(want))) if got[i] != want[i]), min(len(got), len(want)))
+                ctx.violation("linecol", {
+                    "what": "%s/%s: Locator position at start tag %d is %s, expected line:col %s (1 + normalised line ends "
+                            "before the end of the tag : 1 + characters since)%s" % (
+                                a, sc, j, ":".join(got[j]) if j < len(got) else "<missing>",
+                                ":".join(want[j]) if j < len(want) else "<none>", "; errors %s" % errs[:2] if errs else ""),
+                    "request": req_, "impl": [ev[:500], errs, fh], "expect": {"fatal": False, "events": None},
+                    "tag": "linecol", "document": text[:600]})
+    if f46:
+        ctx.known_finding("F46", "XML 1.1: U+2028 consumed by skipSpaces/getSpaces/skippedSpace is treated as a plain blank: "
+                          "not counted as a line end (%d generated documents) and not rejected inside the XML declaration" % f46)
+    ctx.coverage["linecol_documents"] = len(docs)
+    ctx.coverage["traces_validated_against_impl"] += len(lines)
+
+
 def remerge(ev):
     out = []
     for t in ev.split(" "):
@@ -374,10 +628,14 @@ def run(ctx):
     if any(not x[2] for x in ctx.violations) and ctx.replay:
         return
     xh = os.path.join(V.BIN, "xh_C02")
+    okx, outx = V.coq_make(["theories/C03/Extract_C03.vo"], log=ctx.log, dirs=["Base", "Gen", "C02", "C03"], tag="C03")
+    if not okx:
+        ctx.violation("extraction", {"what": "extraction of the C03 models failed", "output": outx[-2000:]}, no_input=True)
+        return
     xm3 = ctx.ocaml("C03", ["gen_c03"])
     rng = ctx.rng
     # F3 witnesses first
-    C02.replay_witnesses(ctx, xh, {"F3": lambda errs, fh: True})   # refined below: printed only when the class shows
+    C02.replay_witnesses(ctx, xh, {"F3": lambda req, errs, fh: True})   # refined below: printed only when the class shows
     ctx.known_hits[:] = [k for k in ctx.known_hits if not k.startswith("F3:")]
     vals = gen_values(rng, 250 if ctx.tier == "quick" else 5000)
     vals = [[(False, 0x78), (True, 9), (True, 9), (False, 0x79), (True, 0x20), (True, 0x20), (False, 0x7A)]] + vals
@@ -444,6 +702,8 @@ def run(ctx):
     large_eol(ctx, xh, xm3)
     progressive(ctx, xh)
     ns_names(ctx, xh)
+    dtd_events(ctx, xh)
+    linecol(ctx, xh, xm3)
     ctx.coverage["attnorm_cases"] = len(vals)
     ctx.coverage["traces_validated_against_impl"] += len(lines)
     ctx.coverage["rule"] += ("; attribute normalisation: %d raw values x {NMTOKENS, CDATA} x {IG, DG} x namespaces x 4 APIs "
